@@ -456,6 +456,7 @@ void XSerializeEngine::read(XMLByte* const toRead
     {
         fillBuffer();
         memcpy(tempRead, fBufCur, fBufSize);
+        fBufCur    += fBufSize;
         tempRead   += fBufSize;
         readRemain -= fBufSize;
     }
